@@ -3,7 +3,7 @@ From Boltons Require Import Lib.Prelude Lib.C14_Text Spec.C14_Spec Model.C14_Mod
   Check.C14_Check Proofs.C14_Table Proofs.C14_Sh Proofs.C14_Cmd Proofs.C14_Int Proofs.C14_Int2 Proofs.C14_Int3
   Proofs.C14_Gzip Gen.C14_Src Proofs.C14_SrcEq Proofs.C14_SrcEqCmd
   Proofs.C14_Read Proofs.C14_SrcEqSh Proofs.C14_IntM Proofs.C14_Cor
-  Proofs.C14_SrcEqParse.
+  Proofs.C14_SrcEqParse Proofs.C14_SrcEqCompl.
 Open Scope N_scope.
 
 (* (T) obligation over the table regenerated from the source on every run:
@@ -128,6 +128,13 @@ Print Assumptions C14_parse_reads.
 Example C14_parse_reads_inhabited :
   read_ranges c_comma c_minus [32; 56; 45; 53; 44; 32; 49; 32; 44; 44; 51; 45; 51; 44; 49] = Some [1; 1; 3; 5; 6; 7; 8]%Z.
 Proof. vm_compute. reflexivity. Qed.
+
+(* (T) the definition regenerated from the CURRENT source text of complement_int_list
+   (defaulting of range_end, the set difference, the call of format_int_list) is the model *)
+Theorem C14_source_complement_int_list : forall s start stop delim rdelim,
+  src_complement_int_list s start stop delim rdelim = complement_int_list s start stop delim rdelim.
+Proof. exact src_complement_int_list_eq. Qed.
+Print Assumptions C14_source_complement_int_list.
 
 (* complement_int_list: the canonical text of exactly the integers of the window
    [max 0 start, stop) that the range string does not contain *)
